@@ -80,7 +80,7 @@ func init() {
 			if d := oracle.Equal(res[i], solo[i], tol); d != "" {
 				_, expr, _ := ExprType(a.Query)
 				kc := &core.Case{Query: a.Query, Series: c.Series, Start: a.Start, End: a.End, Step: a.Step, Lookback: c.Lookback, Shuffle: c.Shuffle}
-				if expr != nil && res[i].Err == nil && solo[i].Err == nil && TopkAmbiguous(kc, expr, st) {
+				if expr != nil && TopkAmbiguous(kc, expr, st) {
 					continue
 				}
 				if id := knownDifferential(c, a.Query, c.Series, a.Start, a.End, a.Step); id != "" {
